@@ -5,9 +5,11 @@ VERIF = os.path.dirname(os.path.dirname(os.path.abspath(__file__)))
 REPO = os.environ.get("VERIF_REPO", "/repo")
 COQ = os.path.join(VERIF, "coq")
 BUILD = os.path.join(VERIF, ".build")
-HARNESS_DIR = os.path.join(VERIF, "harness")
-HARNESS_BIN = os.path.join(BUILD, "target", "debug", "verif-harness")
-HARNESS_BIN_REL = os.path.join(BUILD, "target", "release", "verif-harness")
+# an alternative repository copy + harness copy can be selected for seeded-change trials (tools/try_seed_isolated.sh)
+HARNESS_DIR = os.environ.get("VERIF_HARNESS_DIR", os.path.join(VERIF, "harness"))
+_TARGET = os.environ.get("VERIF_TARGET_DIR", os.path.join(BUILD, "target"))
+HARNESS_BIN = os.path.join(_TARGET, "debug", "verif-harness")
+HARNESS_BIN_REL = os.path.join(_TARGET, "release", "verif-harness")
 CASES = os.path.join(BUILD, "cases")
 GUARD = "contentauth_c2pa_rs_verif"
 
